@@ -6,7 +6,7 @@ import jsontext as jt
 from wire import Obj, Tagged
 
 PROP = "C01"
-MODULES = ["JV.Props.C01"]
+MODULES = ["JV.Props.C01", "JV.Props.C01X"]
 HARNESS = "jtext"
 
 DOUBLES = [0.0, -0.0, 1.0, -1.5, 0.1, 1e21, 1e-7, 123456.789, 5e-324, 1.7976931348623157e308, 2.2250738585072014e-308, 1 / 3, 2.0 ** 64, 2.0 ** 53 + 2,
